@@ -485,6 +485,16 @@ impl<'c, 's, W: Write> Writer<'c, 's, W> {
 	///
 	/// You may use this to e.g. read the header, check the length of what was
 	/// serialized so far...
+	#[cfg(ten0_serde_avro_fast_verif)]
+	/// Verification hook: (n_elements_in_block, block pending flush?, length of the block buffer)
+	pub fn verif_state(&self) -> (u64, bool, usize) {
+		(
+			self.inner.n_elements_in_block,
+			self.inner.block_header_size.is_some(),
+			self.inner.serializer_state.writer().len(),
+		)
+	}
+
 	pub fn inner(&self) -> &W {
 		self.writer.as_ref().expect(
 			"This is only unset by into_inner, which guarantees we \
